@@ -216,4 +216,16 @@ theorem sparse_pipeline (given : Option LType) (take : Option (List Nat)) (key :
       read given ((applyTake take rows).map (splitSparse key (Label.atom (.num 0)))) :=
   sparse_pipeline' given take key rows
 
+/-! ### already labelled sources (rows carry their own `tipe`, e.g. OpenML) -/
+
+/-- an explicit `label_type` decides, whatever type the source attached to its rows -/
+theorem explicit_type_wins {χ : Type} (t : LType) (tipe : Option LType) (r : χ × Label) (rest : List (χ × Label)) :
+    typeOf (resolveGiven (some t) tipe) (r :: rest) = some t :=
+  explicit_type_wins' t tipe r rest
+
+/-- without an explicit `label_type` the rows' own type is used (no inference from the first label) -/
+theorem source_type_used {χ : Type} (t : LType) (r : χ × Label) (rest : List (χ × Label)) :
+    typeOf (resolveGiven none (some t)) (r :: rest) = some t :=
+  source_type_used' t r rest
+
 end Coba.C14
